@@ -286,20 +286,16 @@ pub fn realise_history(case: &serde_json::Value) -> (String, Vec<Step>) {
     let mut steps = Vec::new();
     let mut k = 0usize;
     while k < edits.len() {
-        let e = &edits[k];
-        let kind = e["kind"].as_str().unwrap_or("");
+        // a notification = this edit plus, while an edit is marked "batch", its successor
         let mut changes = Vec::new();
-        let mut consumed = 1;
-        if kind == "tokens" {
-            let mut group = vec![e.clone()];
-            if e["c"] == "batch" && k + 1 < edits.len() && edits[k + 1]["kind"] == "tokens" {
-                group.push(edits[k + 1].clone());
-                consumed = 2;
-            }
-            for g in group {
-                let i = g["i"].as_u64().unwrap() as usize;
-                let j = g["j"].as_u64().unwrap() as usize;
-                let repl: Vec<String> = g["repl"].as_array().cloned().unwrap_or_default().iter().map(|v| v.as_str().unwrap_or("").to_string()).collect();
+        let first = k;
+        loop {
+            let e = &edits[k];
+            let kind = e["kind"].as_str().unwrap_or("");
+            if kind == "tokens" {
+                let i = e["i"].as_u64().unwrap() as usize;
+                let j = e["j"].as_u64().unwrap() as usize;
+                let repl: Vec<String> = e["repl"].as_array().cloned().unwrap_or_default().iter().map(|v| v.as_str().unwrap_or("").to_string()).collect();
                 let rr: Vec<&str> = repl.iter().map(|s| s.as_str()).collect();
                 if i > j || j > spells.len() {
                     eprintln!("history: edit outside the document");
@@ -315,33 +311,39 @@ pub fn realise_history(case: &serde_json::Value) -> (String, Vec<Step>) {
                     std::process::exit(2);
                 }
                 starts = j2.1;
-            }
-        } else if !spells.is_empty() {
-            let i = (e["i"].as_u64().unwrap() as usize).clamp(1, spells.len()) - 1;
-            let tok = &spells[i];
-            let kk = (e["k"].as_u64().unwrap_or(0) as usize).min(tok.chars().count().saturating_sub(1));
-            let at = starts[i] + tok.char_indices().nth(kk).map(|x| x.0).unwrap_or(0);
-            let c = crate::concretise_char(e["c"].as_str().unwrap_or("x")).to_string();
-            let (range, ins) = match kind {
-                "split" => (at..at, " ".to_string()),
-                "join" => {
-                    if i + 1 < spells.len() {
-                        (starts[i + 1] - 1..starts[i + 1], String::new())
-                    } else {
-                        (at..at, String::new())
+            } else if !spells.is_empty() {
+                // character-level edit on token i (1-based), realised on the text; closes the history
+                let i = (e["i"].as_u64().unwrap() as usize).clamp(1, spells.len()) - 1;
+                let tok = &spells[i];
+                let kk = (e["k"].as_u64().unwrap_or(0) as usize).min(tok.chars().count().saturating_sub(1));
+                let at = starts[i] + tok.char_indices().nth(kk).map(|x| x.0).unwrap_or(0);
+                let c = crate::concretise_char(e["c"].as_str().unwrap_or("x")).to_string();
+                let (range, ins) = match kind {
+                    "split" => (at..at, " ".to_string()),
+                    "space" => (starts[i]..starts[i], if kk % 2 == 0 { " ".to_string() } else { "\n  ".to_string() }),
+                    "join" => {
+                        if i + 1 < spells.len() {
+                            (starts[i + 1] - 1..starts[i + 1], String::new())
+                        } else {
+                            (at..at, String::new())
+                        }
                     }
-                }
-                "insert" => (at..at, c),
-                _ => {
-                    let len = tok[at - starts[i]..].chars().next().map(|ch| ch.len_utf8()).unwrap_or(0);
-                    (at..at + len, String::new())
-                }
-            };
-            text.replace_range(range.clone(), &ins);
-            changes.push((range, ins));
+                    "insert" => (at..at, c),
+                    _ => {
+                        let len = tok[at - starts[i]..].chars().next().map(|ch| ch.len_utf8()).unwrap_or(0);
+                        (at..at + len, String::new())
+                    }
+                };
+                text.replace_range(range.clone(), &ins);
+                changes.push((range, ins));
+            }
+            let batch = e["c"] == "batch" && e["kind"] == "tokens" && k + 1 < edits.len();
+            k += 1;
+            if !batch {
+                break;
+            }
         }
-        steps.push(Step { changes, text_after: text.clone(), edits: edits[k..k + consumed].to_vec() });
-        k += consumed;
+        steps.push(Step { changes, text_after: text.clone(), edits: edits[first..k].to_vec() });
     }
     (base, steps)
 }
